@@ -8,6 +8,7 @@
 package c09
 
 import (
+	"sort"
 	"time"
 	"sync/atomic"
 	"bytes"
@@ -438,7 +439,7 @@ func scribbleTxn(t *types.V2Transaction) {
 
 func menu(w *chain.World) []chain.Action {
 	return []chain.Action{
-		chain.V1Pay(true, 2), chain.V1Chain(), chain.V1SF(true), chain.V1Form(1, 2, 100), chain.V1Revise("pay"), chain.V1Proof(false),
+		chain.V1Pay(true, 2), chain.V1Chain(), chain.V1SF(true), chain.V1Form(1, 2, 100), chain.V1Revise("pay"), chain.V1Proof(false), chain.V1ProofFee(),
 		chain.V2Pay(chain.AddrV2, true, 2), chain.V2Pay(chain.AddrThresh, true, 2), chain.V2Chain(chain.AddrV2), chain.V2SF(true), chain.V2Form(1, 2, 100), chain.V2Form(0, 1, 10), chain.V2Revise("pay"), chain.V2Renew("partial"), chain.V2Proof(), chain.V2Expire(), chain.V2Attest(), chain.V2Foundation(false), chain.V2Pay(chain.AddrV1, false, 1),
 		chain.MixedChain(), // a v2 transaction spending what a v1 transaction of the same block created
 		// same-block interactions (several MidState code paths per element): the purity bundle incl. the decode(encode()) copy runs on them too
@@ -838,6 +839,62 @@ func run(c *vf.Ctx) {
 					x.Violate("purity|sub-second-timestamp|state", "applying a block whose in-memory timestamp has a sub-second part reaches a different state than applying its decode(encode()) copy (same block id)", path)
 				}
 				c.Count("sub_second_timestamp_variants", 1)
+			}
+			// ... and the verdict side of it: a child header stamped between the whole second below the median and the
+			// median (the median of an even number of ancestors falls on a half second when the middle two are an odd number
+			// of seconds apart - forced here by moving the tip's timestamp by one second) against its encoded form
+			{
+				st := w.CS
+				n := int(st.Index.Height) + 1
+				if n > len(st.PrevTimestamps) {
+					n = len(st.PrevTimestamps)
+				}
+				for _, shift := range []time.Duration{0, time.Second} {
+					st.PrevTimestamps[0] = w.CS.PrevTimestamps[0].Add(shift)
+					ts := append([]time.Time(nil), st.PrevTimestamps[:n]...)
+					sort.Slice(ts, func(i, j int) bool { return ts[i].Before(ts[j]) })
+					med := ts[n/2]
+					if n%2 == 0 {
+						med = ts[n/2-1].Add(ts[n/2].Sub(ts[n/2-1]) / 2)
+					}
+					if med.Nanosecond() == 0 {
+						continue
+					}
+					blk := types.Block{ParentID: st.Index.ID, Timestamp: time.Unix(med.Unix(), 0).Add(700 * time.Millisecond), MinerPayouts: []types.SiacoinOutput{{Value: st.BlockReward(), Address: types.VoidAddress}}}
+					chain.Seal(st, &blk)
+					hdr := blk.Header()
+					enc := hdr
+					enc.Timestamp = time.Unix(hdr.Timestamp.Unix(), 0)
+					e1, e2 := consensus.ValidateHeader(st, hdr), consensus.ValidateHeader(st, enc)
+					if hdr.ID() == enc.ID() && (e1 == nil) != (e2 == nil) {
+						x.Violate("purity|sub-second-timestamp|verdict", fmt.Sprintf("a header stamped %v (median of its ancestors %v) and its encoded form (whole seconds, same id) get different verdicts from ValidateHeader: %v vs %v", hdr.Timestamp.UTC(), med.UTC(), e1, e2), path)
+					}
+					c.Count("sub_second_timestamp_verdict_probes", 1)
+				}
+			}
+			// the same block and supplement with every element carrying the library's "shared memory" mark (Share()):
+			// same contents, same verdict, same state
+			{
+				sb, sbs := chain.ShareAll(a.B, a.BS)
+				var st consensus.State
+				var verr error
+				if p, _ := vf.Try(func() {
+					if verr = consensus.ValidateBlock(prev.CS, sb, sbs); verr == nil {
+						st, _ = consensus.ApplyBlock(prev.CS, sb, sbs, prev.TargetTimestamp())
+					}
+					for _, t := range sb.V2Transactions() {
+						if e := consensus.ValidateV2Transaction(consensus.NewMidState(prev.CS), t); e != nil && len(sb.V2Transactions()) == 1 && len(sb.Transactions) == 0 {
+							verr = e
+						}
+					}
+				}); p != nil {
+					x.Violate("purity|shared-elements|panic", fmt.Sprintf("validating / applying the block with its elements marked as shared memory panicked: %v", p), path)
+				} else if verr != nil {
+					x.Violate("purity|shared-elements|verdict", fmt.Sprintf("block accepted, the same block with its elements marked as shared memory rejected: %v", verr), path)
+				} else if !bytes.Equal(chain.StateBytes(st), chain.StateBytes(w.CS)) {
+					x.Violate("purity|shared-elements|state", "applying the block with its elements marked as shared memory reaches a different state", path)
+				}
+				c.Count("shared_element_variants", 1)
 			}
 			// invalid variants
 			if n := len(a.B.V2Transactions()); n > 0 {
